@@ -213,9 +213,68 @@ ROLES = [
 ]
 
 
+# key templates: (module, class, pinned builder, prefix of its format string)
+TEMPLATES = [
+    ('playback.tape_recorder', 'TapeRecorder', '_output_interception_key', 'output: '),
+]
+
+
+def _outline_templates(trees, signatures, done):
+    """`'<template><tail>'.format(a, b)` written in place of `builder(a, b) + '<tail>'`: the field-less tail is split off and the
+    template becomes the pinned builder again ('P{}Q{}T'.format(a, b) == 'P{}Q{}'.format(a, b) + 'T' for a tail without fields)"""
+    for module, cls, owner, prefix in TEMPLATES:
+        t = trees.get(module)
+        sig = signatures.get('%s::%s::%s' % (module, cls, owner))
+        if t is None or sig is None:
+            continue
+        for c in t.body:
+            if not (isinstance(c, ast.ClassDef) and c.name == cls) or any(isinstance(x, ast.FunctionDef) and x.name == owner for x in c.body):
+                continue
+            sites = []
+            for m in c.body:
+                if not isinstance(m, ast.FunctionDef) or '%s::%s::%s' % (module, cls, m.name) not in signatures:
+                    continue
+                for n in ast.walk(m):
+                    if isinstance(n, ast.Call) and isinstance(n.func, ast.Attribute) and n.func.attr == 'format' and \
+                            isinstance(n.func.value, ast.Constant) and isinstance(n.func.value.value, str) and \
+                            n.func.value.value.startswith(prefix) and not n.keywords and not any(isinstance(a, ast.Starred) for a in n.args):
+                        sites.append((m, n))
+            if not sites:
+                continue
+            split = []
+            for m, n in sites:
+                text = n.func.value.value
+                cut = text.rfind('}') + 1
+                split.append((text[:cut], text[cut:]))
+            params = [p for p in sig if p != 'self']
+            if len({h for h, _ in split}) != 1 or any('{' in tl or '}' in tl for _, tl in split) or \
+                    any(len(n.args) != len(params) for _, n in sites) or split[0][0].count('{}') != len(params):
+                continue
+            for (m, n), (head, tail) in zip(sites, split):
+                new = ast.Call(func=ast.Attribute(value=ast.Name(id='self', ctx=ast.Load()), attr=owner, ctx=ast.Load()), args=list(n.args), keywords=[])
+                repl = ast.BinOp(left=new, op=ast.Add(), right=ast.Constant(value=tail)) if tail else new
+                for parent in ast.walk(m):
+                    for f, v in ast.iter_fields(parent):
+                        if v is n:
+                            setattr(parent, f, repl)
+                        elif isinstance(v, list):
+                            for i, x in enumerate(v):
+                                if x is n:
+                                    v[i] = repl
+            helper = ast.FunctionDef(
+                name=owner, args=ast.arguments(posonlyargs=[], args=[ast.arg(arg='self')] + [ast.arg(arg=p) for p in params], kwonlyargs=[], kw_defaults=[], defaults=[]),
+                body=[ast.Return(value=ast.Call(func=ast.Attribute(value=ast.Constant(value=split[0][0]), attr='format', ctx=ast.Load()),
+                                                args=[ast.Name(id=p, ctx=ast.Load()) for p in params], keywords=[]))],
+                decorator_list=[], returns=None, type_comment=None, lineno=sites[0][0].lineno, col_offset=sites[0][0].col_offset)
+            c.body.append(helper)
+            ast.fix_missing_locations(helper)
+            done.append((owner, ', '.join(sorted({m.name for m, _ in sites}))))
+
+
 def outline_roles(trees, signatures):
     """returns [(role name, function it was taken out of)]"""
     done = []
+    _outline_templates(trees, signatures, done)
     for module, cls, owner, pred, name in ROLES:
         t = trees.get(module)
         if t is None:
